@@ -151,12 +151,15 @@ P_PassAccepted(i, o)      == (One(i) /\ Found(i) /\ AlignedPass(i)) => o.action 
 P_TempDNS(i, o)           == (One(i) /\ Where(i) = "temperror") => o.action = "tempreject"
 P_NoPolicyNoAction(i, o)  == (One(i) /\ Where(i) = "nopolicy") => o.action = "accept"
 (* non-pass: exactly the published action; under reject an undecided       *)
-(* alignment is refused temporarily; where a temporary error exists but    *)
-(* does not leave alignment undecided the statement can be read both ways  *)
+(* alignment is refused temporarily.  An SPF temperror on an identity that  *)
+(* is not aligned can be read both ways (the SPF evaluation as a whole did  *)
+(* not complete / the identity could not have aligned anyway): both refusal *)
+(* classes are accepted there.  A DKIM temperror of a signature whose d= is  *)
+(* not aligned says nothing about the From domain: published action.        *)
 Allowed(i) ==
   LET pol == Pub(i) IN
     IF pol = "reject" THEN (IF Undecided(i) THEN {"tempreject"}
-                            ELSE IF TempPresent(i) THEN {"permreject", "tempreject"}
+                            ELSE IF i.spf.v = "temperror" THEN {"permreject", "tempreject"}
                             ELSE {"permreject"})
     ELSE {ActOf(pol, FALSE)}
 P_PublishedAction(i, o)   == (One(i) /\ Found(i) /\ ~AlignedPass(i)) => o.action \in Allowed(i)
